@@ -118,6 +118,21 @@ theorem C10_ed_preimage_is_key (r : Record) (h : Valid edS r) :
   obtain ⟨he, hl, _⟩ := edEnrToPublic_ok_inv _ _ hpk
   exact ⟨pk, he, hl, hn⟩
 
+/-- ed25519: the key the accessor returns parses again to the same key (`VerifyingKey::to_bytes` keeps
+    the bytes it was parsed from). -/
+theorem C10_ed_key_redecodes (b : Bytes) (A : Ed.EdPub) (h : Ed.decodePub b = some A) :
+    A.bytes = b ∧ Ed.decodePub A.bytes = some A := by
+  unfold Ed.decodePub at h
+  split at h
+  · cases h
+  · cases hd : Ed.decompress b with
+    | none => rw [hd] at h; cases h
+    | some P =>
+      rw [hd] at h
+      simp only [Option.map_some, Option.some.injEq] at h
+      subst h
+      exact ⟨rfl, by unfold Ed.decodePub; simp_all⟩
+
 #print axioms C10_k256_preimage_is_xy
 #print axioms C10_libsecp_preimage_is_xy
 #print axioms C10_ed_preimage_is_key
